@@ -344,6 +344,10 @@ pub fn gen_time(rng: &mut Rng) -> MVal {
         1 => (23, 59, 59),
         _ => (rng.below(24) as u32, rng.below(60) as u32, rng.below(60) as u32),
     };
+    // one in thirty: a leap second, which chrono holds as second 59 with a nanosecond field of 1e9 or more (hh:mm:60.f)
+    if rng.chance(1, 30) {
+        return MVal::Time(h, m, 59, 1_000_000_000 + gen_nanos(rng));
+    }
     MVal::Time(h, m, s, gen_nanos(rng))
 }
 
@@ -394,6 +398,13 @@ pub fn gen_datetime(rng: &mut Rng) -> MVal {
     if rng.chance(1, 6) {
         if let Some(t) = near_transition(rng, tz) {
             secs = t;
+        }
+    }
+    // one in forty: a leap second (the last second of a UTC minute, nanosecond field raised by 1e9)
+    if rng.chance(1, 40) {
+        let s59 = secs - secs.rem_euclid(60) + 59;
+        if s59 < T2060 {
+            return MVal::DateTime(mdatetime(tz, s59, nanos + 1_000_000_000));
         }
     }
     MVal::DateTime(mdatetime(tz, secs, nanos))
@@ -755,8 +766,13 @@ pub fn string_sig_class(s: &str) -> String {
 /// 2 grid, 3 a grid-meta tag, 4 a column-meta tag), the innermost value is a small scalar. Used by the deep-chain
 /// streams: the decoders accept 127 nested containers (128 is their documented limit).
 pub fn deep_chain(rng: &mut Rng, depth: usize, kinds: &[u8]) -> MVal {
+    let leaf = rng.below(7);
+    deep_chain_with_leaf(rng, depth, kinds, leaf)
+}
+
+pub fn deep_chain_with_leaf(rng: &mut Rng, depth: usize, kinds: &[u8], leaf: usize) -> MVal {
     // the innermost value: a scalar, or an empty container (which sits on the same level and contains nothing to parse)
-    let mut v = match rng.below(7) {
+    let mut v = match leaf % 7 {
         0 => MVal::Num(F(1.5), None),
         1 => MVal::Str("x".into()),
         2 => MVal::Marker,
